@@ -60,7 +60,11 @@ fn e(r: &ProgramError) -> String { format!("err|{}", err_code(r)) }
 
 fn op_rpack<const D: u64>(acct: &mut RtAccount, rep: usize, v: &[u8]) -> Result<(), ProgramError> {
     let info = acct.info();
-    realloc_and_pack_variable_len_with_repetition::<Raw<D>>(&info, &Raw::<D>(v.to_vec()), rep)
+    if rep == 0 && v.len() % 2 == 0 {
+        spl_type_length_value::state::realloc_and_pack_first_variable_len::<Raw<D>>(&info, &Raw::<D>(v.to_vec()))
+    } else {
+        realloc_and_pack_variable_len_with_repetition::<Raw<D>>(&info, &Raw::<D>(v.to_vec()), rep)
+    }
 }
 fn op_allocpack<const D: u64>(buf: &mut [u8], allow: bool, v: &[u8]) -> Result<usize, ProgramError> {
     let mut st = TlvStateMut::unpack(buf)?;
